@@ -17,6 +17,7 @@ pub fn check() -> Check {
 }
 
 const BATCH: u64 = 512;
+const DEPTHS: &[u64] = &[64, 1000, 100_000];
 
 /// line kinds for the exhaustive structured enumeration; `{n}` is replaced by a line number
 pub const KINDS: &[&str] = &[
@@ -46,6 +47,10 @@ pub const KINDS: &[&str] = &[
     "{n} PRINT \"ñ\";%é",           // illegal ASCII character followed by a multi-byte one
     "{n} DATA ça, là: 😊",          // illegal 4-byte character after DATA with multi-byte items
     "\t",                           // tab only
+    "{n} PRINT \"X\"\x0c",           // form feed (a BASIC blank) at the end of a line
+    "{n}\x0c",                       // line number followed by a form feed only
+    "{n} X = \x0c1 : Y$ = \x0c\"s\"", // form feed in front of literals
+    "{n} REM\x0c",
     "{n} X = \"😀\" : Y = 😀",      // 4-byte characters inside and outside a string
 ];
 
@@ -58,6 +63,8 @@ fn plan(tier: Tier) -> Vec<Workload> {
         Workload::new("random_structured", tier.pick(300_000, 6_000_000) / BATCH),
         Workload::new("text", tier.pick(200_000, 4_000_000) / BATCH),
         Workload::new("programs", tier.pick(100_000, 2_000_000) / BATCH),
+        // deep nesting through the analyzer, each probe in a child process (an abort cannot be caught in-process)
+        Workload::new("depth", (crate::props::c01::CONSTRUCTS.len() * DEPTHS.len()) as u64),
     ]
 }
 
@@ -223,6 +230,34 @@ fn run_case(ctx: &Ctx, index: u64, rep: &mut Report) {
             }
             rep.evaluations += BATCH - 1;
         }
+        "depth" => {
+            let constructs = crate::props::c01::CONSTRUCTS;
+            let construct = constructs[(index as usize) / DEPTHS.len()];
+            let depth = DEPTHS[(index as usize) % DEPTHS.len()];
+            let exe = std::env::current_exe().expect("current exe");
+            let out = std::process::Command::new(exe)
+                .args(["probe", construct, &depth.to_string(), "2048", "analyzer"])
+                .env("RUST_BACKTRACE", "0")
+                .stdin(std::process::Stdio::null())
+                .stderr(std::process::Stdio::piped())
+                .output();
+            match out {
+                Err(e) => rep.inconclusive.push(format!("cannot spawn analyzer depth probe: {}", e)),
+                Ok(o) => {
+                    use std::os::unix::process::ExitStatusExt;
+                    let stdout = String::from_utf8_lossy(&o.stdout).to_string();
+                    if o.status.success() && stdout.contains("RESULT") && !stdout.contains("PANIC") {
+                        rep.count("depth.probes_returned");
+                    } else {
+                        ctx.violation(rep, "C05", &format!("analyzer-depth:{}", construct), index,
+                            format!("analysing `{}` nested {} deep killed the process or panicked: exit={:?} signal={:?} {}", construct, depth, o.status.code(), o.status.signal(),
+                                crate::util::truncate(String::from_utf8_lossy(&o.stderr).trim(), 200)),
+                            json!({"construct": construct, "depth": depth}));
+                    }
+                }
+            }
+            rep.nontrivial(hash_str(&format!("depth|{}|{}", construct, depth)));
+        }
         "programs" => {
             for _ in 0..BATCH {
                 let g = prog::generate(&mut rng, &GenOpts { inputs: true, stops: true, ..GenOpts::default() });
@@ -258,6 +293,7 @@ fn finalize(_tier: Tier, rep: &mut Report) -> Finalize {
             ("error_diagnostics".into(), 50_000),
             ("token_ranges_checked".into(), 1_000_000),
             ("distinct_nontrivial".into(), 30_000),
+            ("depth.probes_returned".into(), 60),
         ],
         assumptions: vec!["deep nesting (native stack) through the analyzer is probed in C01's child-process depth grid".into()],
         exhaustive,
